@@ -384,8 +384,8 @@ pub fn run(tier: Tier) -> i32 {
     let mut ctx = Ctx::new("C15", tier);
     ctx.assume("frame sizes are computed by the hand-written reference codec (refmodel::wire)");
     ctx.assume("virtual-time fabric; 'never a hang' is a virtual deadline of 60 s per RPC");
-    ctx.run_part(Codec, tier.pick(5_000, 100_000));
-    ctx.run_part(Net, tier.pick(1_500, 30_000));
+    ctx.run_part(Codec, tier.pick(5_000, 1_000_000));
+    ctx.run_part(Net, tier.pick(1_500, 150_000));
     ctx.run_part(NoLimit, tier.pick(10, 150));
     ctx.finish()
 }
